@@ -38,6 +38,7 @@ func strataC14(tier string) [][]int32 {
 
 type shOp struct {
 	Write bool
+	SrvID bool // read-server-id (FC17): a reply of a length the request does not announce
 	Addr  uint16
 	Val   uint16 // unique per write
 	Pause time.Duration
@@ -57,6 +58,7 @@ type shScenario struct {
 	Hooks         bool          // logging hooks installed on the client; every hook call is a scheduling point
 	Close2After   time.Duration // >=0: a second Close call that long after the first
 	SlowOps       bool          // dialling and closing the port take (a little) time and are scheduling points
+	UnitBase      int           // caller i uses unit id UnitBase+i (0: the first caller addresses unit 0)
 	ShortTimeouts bool          // network client with ReadTimeout 20 ms / WriteTimeout 2 ms (the device answers within 3 ms)
 }
 
@@ -117,6 +119,9 @@ func genC14(t *Tape) *shScenario {
 		var ops []shOp
 		for i := 0; i < m; i++ {
 			op := shOp{Write: t.Choose(2) == 0}
+			if t.Chance(1, 8) {
+				op = shOp{SrvID: true}
+			}
 			if op.Write {
 				op.Addr = uint16(t.Choose(4))
 				val++
@@ -159,6 +164,7 @@ func genC14(t *Tape) *shScenario {
 		sc.Close2After = time.Duration(t.Choose(400)) * time.Microsecond
 	}
 	sc.SlowOps = t.Choose(2) == 0
+	sc.UnitBase = 1 - t.Choose(4)/3 // 0 in a quarter of the runs
 	sc.ShortTimeouts = sc.Kind != KSerial && !sc.Cancels && t.Choose(3) == 0
 	return sc
 }
@@ -227,10 +233,15 @@ func runShared(rc *RunCtx, sc *shScenario) *shOutcome {
 						}
 					} else {
 						// all requests of this workload are 8-byte RTU frames except FC16 (9+2n)
-						if len(buf) < 8 {
+						if len(buf) < 2 {
 							break
 						}
 						l := 8
+						if buf[1] == 17 {
+							l = 4
+						} else if len(buf) < 8 {
+							break
+						}
 						if buf[1] == 16 {
 							l = 9 + int(buf[6])
 						}
@@ -260,6 +271,9 @@ func runShared(rc *RunCtx, sc *shScenario) *shOutcome {
 						for i := 0; i < q; i++ {
 							rp = binary.BigEndian.AppendUint16(rp, regs[(a+i)%4])
 						}
+					case 17:
+						rp = append([]byte{17, byte(len(c14ServerID))}, c14ServerID...)
+						rp = append(rp, 0xFF)
 					case 6:
 						a := int(binary.BigEndian.Uint16(pdu[1:]))
 						regs[a%4] = binary.BigEndian.Uint16(pdu[3:])
@@ -339,7 +353,7 @@ func runShared(rc *RunCtx, sc *shScenario) *shOutcome {
 	var connect func() error
 	var hooks *shHooks
 	if sc.Hooks {
-		hooks = &shHooks{s: s, race: sc.Race, owner: -1, cancels: sc.Cancels, tcp: fr == TCP, mon: &mon, byFrame: byFrame, bad: &out.HookBad}
+		hooks = &shHooks{s: s, race: sc.Race, owner: -1, unitBase: sc.UnitBase, cancels: sc.Cancels, tcp: fr == TCP, mon: &mon, byFrame: byFrame, bad: &out.HookBad}
 	}
 	switch sc.Kind {
 	case KTCP, KRTU:
@@ -419,10 +433,12 @@ func runShared(rc *RunCtx, sc *shScenario) *shOutcome {
 					return
 				}
 				tid := uint16(1 + ci*64 + oi)
-				unit := byte(1 + ci) // makes every request frame unique even over RTU
+				unit := byte(sc.UnitBase + ci) // makes every request frame unique even over RTU
 				var req packet.Request
 				var err error
-				if op.Write {
+				if op.SrvID {
+					req, err = BuildLibRequest(Req{FC: 17}, unit, tid, fr)
+				} else if op.Write {
 					req, err = BuildLibRequest(Req{FC: 6, Addr: op.Addr, Qty: op.Val}, unit, tid, fr)
 				} else {
 					req, err = BuildLibRequest(Req{FC: 3, Addr: 0, Qty: 4}, unit, tid, fr)
@@ -495,7 +511,18 @@ func runShared(rc *RunCtx, sc *shScenario) *shOutcome {
 							recMu.Unlock()
 						}
 					}
-					if op.Write {
+					if op.SrvID {
+						want := append([]byte{17, byte(len(c14ServerID))}, c14ServerID...)
+						want = append(want, 0xFF)
+						if !bytes.Equal(pdu, want) {
+							recMu.Lock()
+							if out.Foreign == "" {
+								out.Foreign = fmt.Sprintf("caller %d asked for the server id and was handed the reply %x", ci, trunc(b, 24))
+							}
+							recMu.Unlock()
+							rec.Err = errors.New("foreign reply")
+						}
+					} else if op.Write {
 						rec.EchoOK = len(pdu) == 5 && pdu[0] == 6 && binary.BigEndian.Uint16(pdu[1:]) == op.Addr && binary.BigEndian.Uint16(pdu[3:]) == op.Val
 						if !rec.EchoOK {
 							recMu.Lock()
@@ -647,6 +674,12 @@ func runC14(rc *RunCtx) {
 		failed := 0
 		for _, r := range recs {
 			in := regInput{Write: r.Op.Write, Addr: r.Op.Addr, Val: r.Op.Val}
+			if r.Op.SrvID {
+				if r.Err != nil {
+					failed++
+				}
+				continue // not an operation on the register file
+			}
 			if r.Err != nil {
 				failed++
 				if !r.Op.Write {
@@ -758,15 +791,16 @@ func (p discardingFlushPort) Flush() error {
 // sink), and the hooks of one request call must not be interleaved with those of another: the calls are carried out one
 // at a time. In race mode the hooks record without any synchronisation of their own, like a naive logger.
 type shHooks struct {
-	s       *Sim
-	race    bool
-	cancels bool
-	tcp     bool
-	mon     *sync.Mutex
-	byFrame map[string]int
-	bad     *string
-	owner   int // caller whose request was written last
-	events  int
+	s        *Sim
+	race     bool
+	cancels  bool
+	tcp      bool
+	mon      *sync.Mutex
+	byFrame  map[string]int
+	bad      *string
+	owner    int // caller whose request was written last
+	unitBase int
+	events   int
 }
 
 func (h *shHooks) yield(what string) {
@@ -808,8 +842,11 @@ func (h *shHooks) BeforeParse(received []byte) {
 	if len(received) <= unitAt {
 		return
 	}
-	who := int(received[unitAt]) - 1 // callers use unit id 1+index
+	who := int(received[unitAt]) - h.unitBase // callers use unit id unitBase+index
 	if h.owner >= 0 && who != h.owner && *h.bad == "" {
 		*h.bad = fmt.Sprintf("the before-parse hook was called with caller %d's reply after the before-write hook had already been called for caller %d's request: the hooks of two request calls are interleaved", who, h.owner)
 	}
 }
+
+// c14ServerID: a vendor string of ordinary length (read-server-id replies are as long as the device likes).
+var c14ServerID = []byte("ACME PLC-2000 fw 1.4.2")
